@@ -21,7 +21,7 @@ RULE = ('cases are 3-8 armored objects of drawn kinds / payload lengths / bodies
         'kinds were decoded by the independent decoder and at least one corrupted delivery was judged; distinct = distinct '
         '(kind, payload length mod 48, delivery forms, fault places) tuples')
 TIERS = {"quick": {"runs": 8000, "budget_s": 80}, "thorough": {"runs": 300000, "budget_s": 1500}}
-PROBES = ('kind_pubkey', 'kind_privkey', 'kind_message', 'kind_signature', 'kind_cleartext', 'crc_leading_zero_octet', 'payload_mod3_0',
+PROBES = ('binary_ends_in_whitespace_octet', 'kind_pubkey', 'kind_privkey', 'kind_message', 'kind_signature', 'kind_cleartext', 'crc_leading_zero_octet', 'payload_mod3_0',
           'payload_mod3_1', 'payload_mod3_2', 'delivered_crlf', 'delivered_bytes', 'delivered_bytearray', 'delivered_file', 'delivered_surrounded',
           'extra_headers', 'f6_raised', 'f6_crc_warning', 'f6_same_payload', 'wrong_kind_rejected', 'body_zeros', 'body_ff')
 KINDS = ['message', 'message', 'message', 'pubkey', 'privkey', 'signature', 'cleartext']
@@ -231,6 +231,22 @@ def execute(case, ctx):
                 ctx.viol('C10:spurious-crc-warning:%s' % form, 'loading an uncorrupted armored %s (%s) reports a CRC mismatch' % (st['kind'], form))
             if bytes(o2) != raw:
                 ctx.viol('C10:armor-load-differs:%s' % form, 'a %s loaded from armor (%s) exports other octets than the original' % (st['kind'], form))
+        # ---- (2b) "the same object as loading the binary": the binary export loads to the same octets, as bytes and as bytearray
+        if st['kind'] != 'cleartext':
+            for bform, blob in (('bytes', raw), ('bytearray', bytearray(raw))):
+                ctx.checked()
+                try:
+                    ob = load(blob)
+                    braw = bytes(ob)
+                except Exception as e:
+                    ctx.viol('C10:own-binary-unloadable:%s:%s' % (bform, type(e).__name__), 'PGPy cannot load its own binary %s export (%s): %s'
+                             % (st['kind'], bform, e))
+                    continue
+                if braw != raw:
+                    ctx.viol('C10:binary-load-differs:%s' % bform, 'a %s loaded from its binary export (%s) exports other octets (%d vs %d)'
+                             % (st['kind'], bform, len(braw), len(raw)))
+            if raw[-1:] in b' \t\n\r\x0b\x0c':
+                ctx.probe('binary_ends_in_whitespace_octet')
         # ---- (3) wrong kind is rejected
         if st.get('wrong_kind'):
             # every other class must refuse the block (a cleartext message holds a SIGNATURE block: PGPSignature may read that one)
